@@ -76,6 +76,40 @@ def leaves(props, path=(), nested=()):
             yield from leaves(sub, p, nested + ((".".join(p),) if kind == "nested" else ()))
 
 
+def _children(k):
+    return k[1] if isinstance(k, tuple) else None
+
+
+def _gets_entries(k):
+    """the derived nested spec hangs something below this direct child of a nested field: it is a nested field with fields, or a
+    container with such a nested field somewhere below it"""
+    sub = _children(k)
+    if sub is None:
+        return False
+    if k[0] == "nested" and sub:
+        return True
+    return any(_gets_entries(kk) for _, kk in sub)
+
+
+def innermost_nested_ancestor_lost(props, path):
+    """known finding D16: the innermost nested ancestor of the field has no direct child that stays a leaf of the derived nested spec
+    (each of its direct children is a nested field with fields, or an object / nested field containing one) - the builder derives
+    its nested paths from the parents of the spec's leaves, so this nested level is not seen"""
+    level = props
+    innermost = None
+    for seg in path:
+        k = dict(level).get(seg)
+        sub = _children(k) if k is not None else None
+        if sub is None:
+            break
+        if k[0] == "nested":
+            innermost = sub
+        level = sub
+    if innermost is None:
+        return False
+    return all(_gets_entries(kk) for _, kk in innermost)
+
+
 def find_leaves(js, enclosing=()):
     (kind, body), = js.items()
     if kind == "bool":
@@ -144,8 +178,23 @@ def check(item):
                 why = "%d leaf clauses" % len(lv)
             if not ok:
                 fails.append({"input": q, "schema": json.dumps(schema), "signature": why.split(" ")[0],
+                              "innermost_nested_ancestor_lost": innermost_nested_ancestor_lost(props, path),
                               "observation": "%s: %s (options %r)" % (why, json.dumps(js)[:300], options)})
     return n, fails[:3]
+
+
+L = "keyword"
+TXT = "text"
+#: hand-picked mappings with leaves at every level of nested > object > nested chains (always included)
+HAND = [
+    [("author", ("nested", [("name", TXT), ("contact", ("object", [("email", L), ("phones", ("nested", [("kind", L), ("number", TXT)]))]))]))],
+    [("a", ("nested", [("x", L), ("o", ("object", [("t", TXT), ("b", ("nested", [("y", L), ("p", ("object", [("q", "text+raw")]))]))]))])),
+     ("title", "text+raw")],
+    [("o", ("object", [("n", ("nested", [("x", TXT), ("m", ("nested", [("z", L)])), ("oo", ("object", [("w", L)]))])), ("k", L)]))],
+    [("n", ("nested", [("x", TXT), ("m", ("nested", [("z", L), ("mm", ("nested", [("u", TXT)]))]))])), ("nx", L), ("n_m", TXT)],
+    [("book", ("object", [("title", "text+raw"), ("author", ("object", [("name", TXT), ("born", "integer")]))])),
+     ("reviews", ("nested", [("stars", "integer"), ("by", ("object", [("nick", L)]))]))],
+]
 
 
 def spellings(tree):
@@ -181,12 +230,39 @@ def spelling_cases():
     fails = []
     n = 0
     groups = [[sp for sp in spellings(t) if isinstance(sp, dict)] for t in TREES]
+    # dotted keys: a nested field inside a nested field, hoisted next to its (still declared) parent
+    groups += [[{"a": {"x": None, "b": {"z": None}}}, {"a": {"x": None}, "a.b": {"z": None}}, {"a": ["x"], "a.b": ["z"]}, {"a.b": ["z"], "a": ["x"]}],
+               [{"o.l": ["p"], "o.q": ["r"]}, {"o.q": {"r": None}, "o.l": {"p": {}}}]]
+    # absolute expectations (not only agreement between spellings): the flattened names are the denoted leaf paths, and each leaf
+    # is queried inside its innermost declared nested path
+    for g in groups:
+        for spec in g:
+            n += 1
+            want = R.spec_paths(spec)
+            try:
+                got = set(utils.flatten_nested_fields_specs(spec))
+            except Exception as e:  # noqa: BLE001
+                got = "raised %r" % (e,)
+            if got != want:
+                fails.append({"input": repr(spec), "signature": "flatten", "observation": "flatten_nested_fields_specs(%r) = %r, the spec denotes %r" % (spec, got, sorted(want))})
+                continue
+            npaths = R.nested_paths(spec)
+            for leaf in sorted(want):
+                try:
+                    js = ElasticsearchQueryBuilder(nested_fields=spec)(parser.parse(leaf + ":v"))
+                    lv = list(find_leaves(js))
+                    enc = lv[0][2] if len(lv) == 1 else None
+                except Exception as e:  # noqa: BLE001
+                    enc = "raised %r" % (e,)
+                inner = R.innermost_nested(leaf, npaths)
+                if enc is None or isinstance(enc, str) or (enc[-1] if enc else None) != inner:
+                    fails.append({"input": leaf + ":v", "signature": "spelling-nesting",
+                                  "observation": "with nested_fields=%r the clause for %s sits in nested %r, its innermost declared nested path is %r" % (spec, leaf, enc, inner)})
     for g in groups:
         ref = None
         for spec in g:
             n += 1
-            got = (sorted(utils.flatten_nested_fields_specs(spec)), utils.normalize_nested_fields_specs(spec),
-                   sorted(ElasticsearchQueryBuilder(nested_fields=spec)._nested_prefixes))
+            got = (sorted(utils.flatten_nested_fields_specs(spec)), sorted(ElasticsearchQueryBuilder(nested_fields=spec)._nested_prefixes))
             outs = []
             for q in ("a.x:v", "a:(x:v)", "a.b.z:v", "a:(b:(z:v))", "a.x:v AND a.y:w", "t:v", "a.b.z:v AND a.b.w:u", "c.u:v OR a.b.w:k",
                       "o.n.x:v", "o.n.m.y:v AND o.n.x:w", "o:(n:(m:(y:v)))", "a:v", "a.b:v"):
@@ -227,6 +303,7 @@ def main():
         allprops += gen_props(len(w), ["f", "g"], tuple(w))
     for w in p.get("ext", []):
         allprops += gen_props(len(w), ["f", "g"], tuple(w), True)
+    allprops += HAND
     for props in allprops:
         for layout in ("current", "typed"):
             items.append((idx, props, layout))
@@ -238,7 +315,7 @@ def main():
     emit({"ok": not rest, "evaluations": sum(r[0] for r in res) + n2, "distinct_nontrivial": len(items),
           "rule": "all mappings of depth <= 2 with 1-2 fields per level, plus deeper ones with per-level widths %r, plus per-level widths %r with the extended kinds (legacy string / not_analyzed string, integer, keyword with a text multi-field, object declared by properties only); kinds {text, keyword, text with "
                   "keyword multi-field, object, nested}, two layouts; every leaf field x up to 3 query spellings; + spelling groups of field "
-                  "specs; distinct = (mapping, layout)" % (p.get("deep", []), p.get("ext", [])),
+                  "specs; %d hand-picked deeper mappings; distinct = (mapping, layout)" % (p.get("deep", []), p.get("ext", []), len(HAND)),
           "bound": "mapping depth <= 2 width <= 2, deeper: widths %r, extended kinds: widths %r" % (p.get("deep", []), p.get("ext", [])),
           "samples": [{"mapping": to_mapping(gen_props(2, ["f", "g"])[7])}],
           "failures": rest[:40], "known": hit, "known_covered": len(failures) - len(rest)})
